@@ -251,9 +251,38 @@ class A(Adapter):
         return None
 
     # ---- policies ----------------------------------------------------------------------------------
+    def _walk_to_free_target(self, walls, targets, boxes, agent) -> Optional[int]:
+        """With exactly one target left uncovered: the first step of a walk (no pushing) that puts the agent on it - every
+        target is then occupied by something, yet the level is not solved. None when not applicable / already there."""
+        if self._on_targets(boxes, targets) != N_BOXES - 1:
+            return None
+        free_t = [tuple(int(v) for v in t) for t in np.argwhere(targets) if tuple(int(v) for v in t) not in boxes]
+        if not free_t or agent == free_t[0]:
+            return None
+        prev = {agent: None}
+        dq = deque([agent])
+        while dq:
+            cur = dq.popleft()
+            if cur == free_t[0]:
+                break
+            for a in range(4):
+                n = (cur[0] + DELTA[a][0], cur[1] + DELTA[a][1])
+                if 0 <= n[0] < walls.shape[0] and 0 <= n[1] < walls.shape[1] and not walls[n] and n not in boxes and n not in prev:
+                    prev[n] = (cur, a)
+                    dq.append(n)
+        if free_t[0] not in prev:
+            return None
+        cur, first = free_t[0], None
+        while prev[cur] is not None:
+            cur, first = prev[cur][0], prev[cur][1]
+        return None if first is None else int(first)
+
     def policy_survive(self, s, env, rng, legal):
         """Never complete the level: walk without pushing; else a push that does not solve; else bump."""
         walls, targets, boxes, agent = self._parts(s)
+        tease = self._walk_to_free_target(walls, targets, boxes, agent)
+        if tease is not None:
+            return tease
         walk, push, bump = [], [], []
         for a in [int(x) for x in rng.permutation(4)]:
             res = self._move(walls, boxes, agent, a)
@@ -272,6 +301,11 @@ class A(Adapter):
         """Shortest solution by BFS over (agent, boxes); bounded, so it only succeeds on easy positions
         (SimpleSolve level and toy positions close to the end). A pure function of the state (memoised)."""
         walls, targets, boxes, agent = self._parts(s)
+        if int(s.step_count) % 16 < 8:
+            # in the first half of every 16-step window a detour: with one target left, go and stand on it before finishing
+            tease = self._walk_to_free_target(walls, targets, boxes, agent)
+            if tease is not None:
+                return tease
         key = (walls.tobytes(), targets.tobytes(), agent, boxes)
         if key in self._plan_memo:
             return self._plan_memo[key]
